@@ -25,6 +25,9 @@ pub enum Origin {
     Stable,
     Lazer,
     LazerClassic,
+    /// lazer + Classic mod whose `no_slider_head_accuracy` setting is switched off again:
+    /// scored like plain lazer (with slider accuracy)
+    LazerClassicHeadAcc,
 }
 
 impl Origin {
@@ -35,6 +38,38 @@ impl Origin {
             Origin::LazerClassic => Difficulty::new()
                 .lazer(true)
                 .mods(ModsSpec { bits: 0, repr: ModRepr::Lazer, extras: vec![LazerExtra::Classic] }.build(mode)),
+            Origin::LazerClassicHeadAcc => Difficulty::new().lazer(true).mods(Self::classic_with_head_acc(mode)),
+        }
+    }
+
+    fn classic_with_head_acc(mode: GameMode) -> rosu_pp::GameMods {
+        use rosu_pp::model::mods::rosu_mods::{GameMod, GameMods};
+        let mut m = GameMod::new("CL", crate::gen::diff::mods_mode(mode));
+        if let GameMod::ClassicOsu(cl) = &mut m {
+            cl.no_slider_head_accuracy = Some(false);
+        }
+        let mut mods = GameMods::new();
+        mods.insert(m);
+        rosu_pp::GameMods::from(mods)
+    }
+
+    /// Whether the osu! score uses slider accuracy (slider ends + large ticks) / the classic tick model.
+    pub fn osu_with_slider_acc(self) -> bool {
+        matches!(self, Origin::Lazer | Origin::LazerClassicHeadAcc)
+    }
+
+    /// For mania: whether the classic (stable) judgement model applies.
+    pub fn mania_classic(self) -> bool {
+        matches!(self, Origin::Stable | Origin::LazerClassic | Origin::LazerClassicHeadAcc)
+    }
+
+    /// The same origin expressed through the Performance setters instead of a Difficulty.
+    pub fn apply_setters<'a>(self, p: Performance<'a>, mode: GameMode) -> Performance<'a> {
+        match self {
+            Origin::Stable => p.lazer(false),
+            Origin::Lazer => p.lazer(true),
+            Origin::LazerClassic => p.lazer(true).mods(ModsSpec { bits: 0, repr: ModRepr::Lazer, extras: vec![LazerExtra::Classic] }.build(mode)),
+            Origin::LazerClassicHeadAcc => p.lazer(true).mods(Self::classic_with_head_acc(mode)),
         }
     }
 }
@@ -163,6 +198,8 @@ pub struct Provided {
     pub slider_end_hits: Option<u32>,
     pub worst_case: Option<bool>,
     pub passed: Option<u32>,
+    /// express origin / passed_objects through the Performance setters instead of a Difficulty
+    pub via_setters: bool,
 }
 
 impl Provided {
@@ -173,11 +210,19 @@ impl Provided {
             DifficultyAttributes::Catch(_) => GameMode::Catch,
             DifficultyAttributes::Mania(_) => GameMode::Mania,
         };
-        let mut d = origin.difficulty(mode);
-        if let Some(p) = self.passed {
-            d = d.passed_objects(p);
-        }
-        let mut p = Performance::new(attrs).difficulty(d);
+        let mut p = if self.via_setters {
+            let mut p = origin.apply_setters(Performance::new(attrs), mode);
+            if let Some(n) = self.passed {
+                p = p.passed_objects(n);
+            }
+            p
+        } else {
+            let mut d = origin.difficulty(mode);
+            if let Some(p) = self.passed {
+                d = d.passed_objects(p);
+            }
+            Performance::new(attrs).difficulty(d)
+        };
         if let Some(v) = self.accuracy {
             p = p.accuracy(v);
         }
@@ -258,6 +303,7 @@ fn gen_provided(t: &mut Tape, shape: &Shape) -> Provided {
         slider_end_hits: if matches!(shape, Shape::Osu { .. }) { opt(t, n, 1, 4) } else { None },
         worst_case: if t.chance(1, 2) { Some(t.coin()) } else { None },
         passed: if t.chance(1, 3) { Some(t.range(0, i64::from(n) + 2) as u32) } else { None },
+        via_setters: t.coin(),
     }
 }
 
@@ -292,7 +338,7 @@ fn view(shape: &Shape, origin: Origin, p: &Provided, s: &ScoreState) -> View {
         }
         Shape::Mania { objects, holds } => {
             let n_obj = passed.min(objects);
-            let n_total = n_obj + if origin == Origin::Lazer { holds.min(objects) } else { 0 };
+            let n_total = n_obj + if origin.mania_classic() { 0 } else { holds.min(objects) };
             View {
                 n_obj,
                 n_total,
@@ -354,6 +400,28 @@ pub fn oracle(shape: &Shape, origin: Origin, p: &Provided, info: &mut CaseInfo) 
             }
         }
     }
+    // P2 (slider parts, osu!): a provided slider-end / tick count that fits its maximum is kept; parts the
+    // score origin does not have are zero
+    if let Shape::Osu { sliders, large_ticks, .. } = *shape {
+        let expect = |prov: Option<u32>, max: u32| prov.map_or(max, |v| v.min(max));
+        let (exp_ends, exp_large, exp_small) = if origin == Origin::Stable {
+            (0, 0, 0)
+        } else if origin.osu_with_slider_acc() {
+            (expect(p.slider_end_hits, sliders), expect(p.large_tick_hits, large_ticks), 0)
+        } else {
+            (0, expect(p.large_tick_hits, sliders + large_ticks), expect(p.small_tick_hits, sliders))
+        };
+        if (s1.slider_end_hits, s1.osu_large_tick_hits, s1.osu_small_tick_hits) != (exp_ends, exp_large, exp_small) {
+            return Err(format!(
+                "P2: slider parts (ends, large ticks, small ticks) = {:?}, expected {:?} for origin {origin:?} with provided {:?}/{:?}/{:?} on {sliders} sliders and {large_ticks} large ticks",
+                (s1.slider_end_hits, s1.osu_large_tick_hits, s1.osu_small_tick_hits),
+                (exp_ends, exp_large, exp_small),
+                p.slider_end_hits,
+                p.large_tick_hits,
+                p.small_tick_hits
+            ));
+        }
+    }
     // P3
     if sum_provided + u64::from(s1.misses) <= u64::from(v.n_total) && sum_out != u64::from(v.n_total) {
         return Err(format!(
@@ -397,7 +465,7 @@ pub fn oracle(shape: &Shape, origin: Origin, p: &Provided, info: &mut CaseInfo) 
 fn provided_json(p: &Provided) -> Value {
     json!({"accuracy": p.accuracy.map(|a| format!("{a:?}")), "combo": p.combo, "misses": p.misses, "n300": p.n300, "n100": p.n100, "n50": p.n50,
            "n_katu": p.n_katu, "n_geki": p.n_geki, "large_tick_hits": p.large_tick_hits, "small_tick_hits": p.small_tick_hits,
-           "slider_end_hits": p.slider_end_hits, "worst_case": p.worst_case, "passed": p.passed})
+           "slider_end_hits": p.slider_end_hits, "worst_case": p.worst_case, "passed": p.passed, "via_setters": p.via_setters})
 }
 
 pub fn provided_from_json(v: &Value) -> Provided {
@@ -416,6 +484,7 @@ pub fn provided_from_json(v: &Value) -> Provided {
         slider_end_hits: u("slider_end_hits"),
         worst_case: v.get("worst_case").and_then(Value::as_bool),
         passed: u("passed"),
+        via_setters: v.get("via_setters").and_then(Value::as_bool).unwrap_or(false),
     }
 }
 
@@ -443,6 +512,7 @@ pub fn origin_from_name(s: &str) -> Origin {
     match s {
         "Stable" => Origin::Stable,
         "LazerClassic" => Origin::LazerClassic,
+        "LazerClassicHeadAcc" => Origin::LazerClassicHeadAcc,
         _ => Origin::Lazer,
     }
 }
@@ -456,7 +526,7 @@ fn direct(v: &Value) -> Result<(), String> {
 
 fn case(t: &mut Tape, info: &mut CaseInfo) -> Result<(), String> {
     let shape = gen_shape(t);
-    let origin = *t.pick(&[Origin::Lazer, Origin::Stable, Origin::LazerClassic]);
+    let origin = *t.pick(&[Origin::Lazer, Origin::Stable, Origin::LazerClassic, Origin::LazerClassicHeadAcc]);
     let mut p = gen_provided(t, &shape);
     // open findings: steer out of the class by construction
     if crate::known::is_open(K_CATCH_COMBO) && matches!(shape, Shape::Catch { .. }) && p.combo.is_some() {
@@ -513,7 +583,7 @@ pub fn property() -> Property {
         id: "C12",
         subchecks: vec![SubCheck {
             name: "generated-state-predicates",
-            rule: "G-ATTR shapes of all four modes (every count 0..12, occasionally up to 1500; zero sliders / zero circles / zero droplets explicit) x origin stable / lazer / lazer+Classic x each of accuracy, combo, misses and every hit-result setter independently absent or 0..N+3 (occasionally up to 2N+5 or huge) x both priorities x passed_objects absent or 0..N+2. Oracle (validity predicates on Performance::generate_state()): P1 misses<=objects and kept when they fit; P2 provided results that jointly fit are never lowered and a fully specified exact state is returned unchanged; P3 whenever provided results + misses do not exceed N the state sums to exactly N (catch: tiny+tiny-misses = n_tiny); P4 max_combo <= attrs.max_combo - misses (osu, taiko, catch); P5 generating twice gives the same state; P6 calculate() equals a fresh builder given the generated state explicitly (all fields), and that builder regenerates the same state. Non-trivial: >=1 and not all hit results provided, N>=2.",
+            rule: "G-ATTR shapes of all four modes (every count 0..12, occasionally up to 1500; zero sliders / zero circles / zero droplets explicit) x origin stable / lazer / lazer+Classic / lazer+Classic with slider-head accuracy switched back on (each expressed through a Difficulty or through the Performance setters) x each of accuracy, combo, misses and every hit-result setter independently absent or 0..N+3 (occasionally up to 2N+5 or huge) x both priorities x passed_objects absent or 0..N+2. Oracle (validity predicates on Performance::generate_state()): P1 misses<=objects and kept when they fit; P2 provided results that jointly fit are never lowered, a fully specified exact state is returned unchanged, and (osu!) provided slider-end / tick counts are kept up to their maximum for the score origin; P3 whenever provided results + misses do not exceed N the state sums to exactly N (catch: tiny+tiny-misses = n_tiny); P4 max_combo <= attrs.max_combo - misses (osu, taiko, catch); P5 generating twice gives the same state; P6 calculate() equals a fresh builder given the generated state explicitly (all fields), and that builder regenerates the same state. Non-trivial: >=1 and not all hit results provided, N>=2.",
             quick: 150_000,
             thorough: 3_000_000,
             tape_len: 64,
